@@ -427,6 +427,22 @@ fn state_case(rng: &mut Rng, rep: &mut Report) {
             return;
         }
     }
+    // M3 the declared initial values, read back by name through the typed accessors on the model's own initial state
+    if let Ok(init_state) = sm.initial_state() {
+        for (name, feat) in refm.iter() {
+            let bad = match feat {
+                Feat::CustomI(i) => sm.get_custom_i64(&init_state, name).ok() != Some(*i),
+                Feat::CustomU(u) => sm.get_custom_u64(&init_state, name).ok() != Some(*u),
+                Feat::CustomB(b) => sm.get_custom_bool(&init_state, name).ok() != Some(*b),
+                Feat::CustomF(f) => sm.get_custom_f64(&init_state, name).ok().map(|x| x.to_bits()) != Some(f.to_bits()),
+                _ => false,
+            };
+            if bad {
+                rep.violate(&format!("C11|StateModel::get_custom|initial-value-differs|{}|{sc}", feat.kind()), format!("M3 the declared initial value of {name} ({:?}) is not what the typed accessor reads from initial_state()", feat), rp);
+                return;
+            }
+        }
+    }
     // M4/M5/M6 random updates
     let mut state: Vec<StateVar> = exp_init.iter().map(|x| StateVar(*x)).collect();
     let nup = rng.urange(1, 30);
@@ -471,9 +487,16 @@ fn state_case(rng: &mut Rng, rep: &mut Report) {
                 (r.map_err(|e| e.to_string()), sm.get_custom_f64(&state, &name).ok().map(|x| (x, true)))
             }
             Feat::CustomI(_) => {
-                let v = val as i64;
+                // negative values and large magnitudes included
+                let v = match rng.below(4) {
+                    0 => -(val as i64),
+                    1 => -(val as i64) - 1,
+                    2 => (val as i64) * 1_000_003,
+                    _ => val as i64,
+                };
                 let r = sm.set_custom_i64(&mut state, &name, &v);
-                (r.map_err(|e| e.to_string()), sm.get_custom_i64(&state, &name).ok().map(|x| (x as f64 + val.fract(), true)))
+                // reported relative to `val` so that the comparison below is x == v
+                (r.map_err(|e| e.to_string()), sm.get_custom_i64(&state, &name).ok().map(|x| ((x - v) as f64 + val, true)))
             }
             Feat::CustomU(_) => {
                 let v = val as u64;
